@@ -946,6 +946,52 @@ theorem inverseMembers_frame {w w' : World} {link ub : Bool} {ms ids : List Nat}
           obtain ⟨a', b'⟩ := inverseLeaf_frame h1
           exact ⟨fun k hk => (a k (Nat.lt_of_lt_of_le hk b')).trans (a' k hk), Nat.le_trans b' b⟩
 
+/-! ### shallow copy of a composite: copies of the children -/
+
+theorem copyObj_frame (w : World) (o : Obj) :
+    (∀ k, k < w.nDict → (copyObj w o).1.pdicts k = w.pdicts k) ∧ (copyObj w o).1.nDict = w.nDict + 1
+      ∧ (copyObj w o).1.nCell = w.nCell := by
+  refine ⟨fun k hk => ?_, rfl, rfl⟩
+  have : k ≠ w.nDict := Nat.ne_of_lt hk
+  simp [copyObj, World.addObj, World.copyDict, this]
+
+theorem WF_copyMembers {w : World} (h : WF w) (ms : List Nat) : WF (copyMembers w ms).1 := by
+  induction ms generalizing w with
+  | nil => exact h
+  | cons m ms ih =>
+    unfold copyMembers
+    split
+    · exact ih h
+    · next o ho => exact ih (WF_copyObj h (h.objs m o ho))
+
+theorem copyMembers_frame (w : World) (ms : List Nat) :
+    (∀ k, k < w.nDict → (copyMembers w ms).1.pdicts k = w.pdicts k) ∧ w.nDict ≤ (copyMembers w ms).1.nDict
+      ∧ (copyMembers w ms).1.nCell = w.nCell := by
+  induction ms generalizing w with
+  | nil => exact ⟨fun _ _ => rfl, Nat.le_refl _, rfl⟩
+  | cons m ms ih =>
+    unfold copyMembers
+    split
+    · exact ih w
+    · next o ho =>
+      obtain ⟨a, b, c⟩ := ih (copyObj w o).1
+      obtain ⟨a', b', c'⟩ := copyObj_frame w o
+      refine ⟨fun k hk => ?_, ?_, c.trans c'⟩
+      · rw [a k (by rw [b']; exact Nat.lt_succ_of_lt hk)]; exact a' k hk
+      · rw [b'] at b; exact Nat.le_trans (Nat.le_succ _) b
+
+theorem WF_copyAny {w : World} (h : WF w) {o : Obj} (ho : ObjOK w o) : WF (copyAny w o).1 := by
+  unfold copyAny
+  split
+  · have h1 := WF_copyObj h ho
+    have h2 := WF_copyMembers h1 o.members
+    obtain ⟨a, b, _⟩ := copyMembers_frame (copyObj w o).1 o.members
+    refine h2.setObj _ ?_
+    have hc := ObjOK_copyRec h ho
+    exact (hc.fields (o' := { copyRec w o with members := (copyMembers (copyObj w o).1 o.members).2 }) rfl rfl
+      (fun x => x)).congrAt (a _ (by show w.nDict < w.nDict + 1; exact Nat.lt_succ_self _)) b
+  · exact WF_copyObj h ho
+
 /-! ### every operation preserves the invariant -/
 
 theorem objs_addObj_new (w : World) (o : Obj) : (w.addObj o).1.objs (w.addObj o).2 = some o := by
@@ -974,7 +1020,7 @@ theorem WF_step {w : World} (h : WF w) (op : Op) : WF (step w op).1 := by
     simp only [step]
     split
     · exact h
-    · next o ho => exact WF_copyObj h (h.objs id o ho)
+    · next o ho => exact WF_copyAny h (h.objs id o ho)
   | inverse id link ub =>
     simp only [step]
     split
@@ -1110,10 +1156,13 @@ theorem WF_step {w : World} (h : WF w) (op : Op) : WF (step w op).1 := by
     split
     · exact h
     · next o ho =>
-      have := WF_gridSet (WF_copyObj h (h.objs id o ho)) (objs_copyObj_new w o) g
       split
-      · next w' hg => exact WF_fst_of_eq hg this
       · exact h
+      · next oc hoc =>
+        have := WF_gridSet (WF_copyAny h (h.objs id o ho)) hoc g
+        split
+        · next w' hg => exact WF_fst_of_eq hg this
+        · exact h
   | condition_ id c =>
     simp only [step]
     split
@@ -1123,7 +1172,7 @@ theorem WF_step {w : World} (h : WF w) (op : Op) : WF (step w op).1 := by
     simp only [step]
     split
     · exact h
-    · next o ho => exact WF_condSet (WF_copyObj h (h.objs id o ho)) _ c
+    · next o ho => exact WF_condSet (WF_copyAny h (h.objs id o ho)) _ c
   | reset id =>
     simp only [step]
     split
